@@ -25,7 +25,7 @@ func init() { registry["C11"] = c11 }
 func c11(r *R) {
 	L, A := 5, 3
 	if thorough {
-		L, A = 6, 4
+		L, A = 7, 4
 	}
 	alpha := []int{0, 1, 2, 3}[:A]
 	c11For(r, "int", alpha, L)
